@@ -809,7 +809,8 @@ impl Property for C06 {
                 // which program did the tool actually see?
                 let seen: Option<HCirc> = match inf {
                     InFault::None => Some(sc.circ.clone()),
-                    InFault::Empty => Some(HCirc::new(0)),
+                    // an empty file is not a program (the OPENQASM header is mandatory)
+                    InFault::Empty => None,
                     InFault::TruncatedAtStatement(k) => {
                         let mut c = sc.circ.clone();
                         c.gates.truncate(*k);
@@ -860,7 +861,18 @@ impl Property for C06 {
                 match res {
                     CliResult::Ok(text) => {
                         out.ev_str("ok");
-                        if matches!(inf, InFault::Missing | InFault::IsDir) {
+                        // torn inside the header: still a (degenerate) valid program only if the cut
+                        // falls on a statement boundary after the OPENQASM line
+                        let cut_in_header = match inf {
+                            InFault::TruncatedMid(k) if *k < header.trim_end().len() => {
+                                let kept = &header[..*k];
+                                !(kept.trim_end().ends_with(';') && kept.contains("OPENQASM 2.0;"))
+                            }
+                            _ => false,
+                        };
+                        if matches!(inf, InFault::Empty) || cut_in_header {
+                            out.violations.push(Violation::new("success_despite_fault", format!("{how}: exit 0 although the input is not a complete program (empty, or torn inside its header)")).with("batch", sub).with("fault", inf.name()));
+                        } else if matches!(inf, InFault::Missing | InFault::IsDir) {
                             out.violations.push(Violation::new("success_despite_fault", format!("{how}: exit 0 with an unreadable input")).with("batch", sub).with("fault", inf.name()));
                         } else if must_fail_out {
                             // with a malformed-for-this-program query the tool may legitimately... no: exit 0 means an answer was produced
